@@ -1,4 +1,5 @@
 import PV.C07.Types
+import PV.C06.Spec
 /-
   C07 — reference definitions: CPython 3.11's (pre-PEP 701) rules for splitting an f-string body
   into literal parts and replacement fields, written from `Parser/string_parser.c`
@@ -22,5 +23,229 @@ def convCode : Conv → Nat
 def convTable : List (Nat × Option Nat) :=
   ((List.range 128).filter (fun c => c ≠ 0 ∧ c ≠ 10 ∧ c ≠ 13 ∧ c ≠ 39 ∧ c ≠ 92)).map fun c =>
     (c, (convOfChar c).map convCode)
+
+/-! ## the reference scanner
+
+`strict = false`: the reference rules.  `strict = true`: the same rules restricted to the DOMAIN of
+the partial theorem — the scanner additionally gives up (`none`) on exactly the shapes on which
+the unchanged Rust scanner is known to deviate (each is a listed known finding with a witness
+theorem in `Thm.lean`), and on one shape that the text/offset abstraction cannot judge:
+
+  * a triple-quoted string inside a replacement field                 (triple-quote-in-field)
+  * white space other than blanks after a self-documenting `=`        (selfdoc-nonspace-whitespace)
+  * a backslash in the literal text that opens a format spec, non-raw (spec-escape-not-decoded)
+  * a self-documenting field nested in a format spec                  (selfdoc-in-spec-unmerged)
+  * an expression text made of Unicode white space only (e.g. NBSP): the reference goes on to
+    reject it as an invalid expression, which this level of abstraction does not see.
+
+Offsets: `off` is the absolute byte offset of the first character of the remaining text.
+Literal values are given in stored form (a lone surrogate escape written U+FFFD, as in C06). -/
+
+/-- `char::text_len` / UTF-8 length of a scalar value -/
+def usize (c : Nat) : Nat :=
+  if c < 0x80 then 1 else if c < 0x800 then 2 else if c < 0x10000 then 3 else 4
+
+def ulen (cs : List Nat) : Nat := (cs.map usize).sum
+
+/-- `Py_ISSPACE` -/
+def isSpace (c : Nat) : Bool := c = 32 || (9 ≤ c && c ≤ 13)
+
+/-- the white space CPython's "empty expression" test ignores -/
+def isBlank (c : Nat) : Bool := c = 32 || c = 9 || c = 10 || c = 12
+
+/-- Unicode `White_Space` (what the text/offset abstraction cannot tell from an expression) -/
+def isUniSpace (c : Nat) : Bool :=
+  (9 ≤ c && c ≤ 13) || c = 32 || c = 0x85 || c = 0xA0 || c = 0x1680 || (0x2000 ≤ c && c ≤ 0x200A) ||
+  c = 0x2028 || c = 0x2029 || c = 0x202F || c = 0x205F || c = 0x3000
+
+def isOpen (c : Nat) : Bool := c = 40 || c = 91 || c = 123
+def isClose (c : Nat) : Bool := c = 41 || c = 93 || c = 125
+
+/-- `(`…`)`, `[`…`]`, `{`…`}` -/
+def closes (o c : Nat) : Bool := (o = 40 && c = 41) || (o = 91 && c = 93) || (o = 123 && c = 125)
+
+/-- The rest of a string inside an expression, after its opening quote(s): the characters up to
+    and including the closing quote(s), and what follows.  A backslash is an error everywhere in
+    an expression. -/
+def closeString (q : Nat) (triple : Bool) : List Nat → Option (List Nat × List Nat)
+  | [] => none
+  | c :: cs =>
+    if c = 92 then none
+    else if c = q ∧ ¬ triple then some ([c], cs)
+    else if c = q ∧ cs.take 2 = [q, q] then some ([c, q, q], cs.drop 2)
+    else match closeString q triple cs with
+      | some (s, r) => some (c :: s, r)
+      | none => none
+
+/-- The expression part of a replacement field (`fstring_find_expr` up to "normal way out of this
+    loop"): returns the expression text and the rest, which starts with the terminating `!`, `:`,
+    `}` or `=`.  `stack` holds the open brackets.  `fuel > cs.length` suffices. -/
+def exprScan (strict : Bool) : Nat → List Nat → List Nat → Option (List Nat × List Nat)
+  | 0, _, _ => none
+  | _ + 1, _, [] => none                                   -- "expecting '}'"
+  | fuel + 1, stack, c :: cs =>
+    let more (pre : List Nat) (stack : List Nat) (rest : List Nat) : Option (List Nat × List Nat) :=
+      match exprScan strict fuel stack rest with
+      | some (t, r) => some (pre ++ t, r)
+      | none => none
+    if c = 92 then none                                    -- backslash
+    else if c = 39 ∨ c = 34 then
+      if cs.take 2 = [c, c] then
+        if strict then none
+        else match closeString c true (cs.drop 2) with
+          | some (s, r) => more (c :: c :: c :: s) stack r
+          | none => none
+      else match closeString c false cs with
+        | some (s, r) => more (c :: s) stack r
+        | none => none
+    else if isOpen c then more [c] (c :: stack) cs
+    else if c = 35 then none                               -- '#'
+    else if stack.isEmpty ∧ (c = 33 ∨ c = 58 ∨ c = 125 ∨ c = 61 ∨ c = 62 ∨ c = 60) then
+      if (c = 33 ∨ c = 61 ∨ c = 60 ∨ c = 62) ∧ cs.head? = some 61 then more [c, 61] stack cs.tail   -- != == <= >=
+      else if c = 62 ∨ c = 60 then more [c] stack cs
+      else some ([], c :: cs)
+    else if isClose c then
+      match stack with
+      | o :: st => if closes o c then more [c] st cs else none
+      | [] => none
+    else more [c] stack cs
+
+/-- The self-documenting `=` and the white space after it: `(the white space if there is an `=`,
+    the rest)` -/
+def eqPart : List Nat → Option (List Nat) × List Nat
+  | 61 :: r => (some (r.takeWhile isSpace), r.drop (r.takeWhile isSpace).length)
+  | r => (none, r)
+
+/-- The conversion `!s`, `!r`, `!a`, which must be followed by `:` or `}`:
+    `(conversion, rest, number of bytes taken)`; `none` = error. -/
+def convPart : List Nat → Option (Conv × List Nat × Nat)
+  | 33 :: c :: r =>
+    match convOfChar c with
+    | some cv => if r.head? = some 58 ∨ r.head? = some 125 then some (cv, r, 1 + usize c) else none
+    | none => none
+  | [33] => none
+  | r => some (.none, r, 0)
+
+/-- The format spec: a `:` followed by literal text and nested fields (`inner` scans them, one level
+    deeper) up to the field's closing `}`: `(spec, rest, offset of rest)`. -/
+def specPart (inner : List Nat → Nat → Option (List Piece × List Nat × Nat)) (r2 : List Nat) (o2 : Nat) :
+    Option (Option (List Piece) × List Nat × Nat) :=
+  match r2 with
+  | 58 :: r =>
+    match inner r (o2 + 1) with
+    | some (ps, r', o') => some (some ps, r', o')
+    | none => none
+  | _ => some (none, r2, o2)
+
+/-- the closing `}` of a field ("expecting '}'" otherwise) -/
+def closePart : List Nat → Option (List Nat)
+  | 125 :: r4 => some r4
+  | _ => none
+
+/-- the default `!r` of a self-documenting field without conversion and format spec -/
+def finalConv (selfdoc : Bool) (cv : Conv) (spec : Option (List Piece)) : Conv :=
+  if selfdoc ∧ cv = .none ∧ spec.isNone then .repr else cv
+
+/-- the text a self-documenting field echoes -/
+def echoOf (text : List Nat) : Option (List Nat) → List Nat
+  | some ws => text ++ [61] ++ ws
+  | none => []
+
+/-- bytes taken by the `=` part -/
+def eqBytes : Option (List Nat) → Nat
+  | some ws => 1 + ulen ws
+  | none => 0
+
+/-- a self-documenting `=` outside the theorem's domain: white space other than blanks after it,
+    or inside a format spec -/
+def eqOutside (lvl : Nat) : Option (List Nat) → Bool
+  | some ws => !(ws.all (· = 32)) || decide (lvl ≥ 1)
+  | none => false
+
+/-- one piece list with the literal text still pending in front of it -/
+structure Acc where
+  pieces : List Piece
+  lit : List Nat
+
+def Acc.flush (a : Acc) : List Piece := if a.lit.isEmpty then a.pieces else a.pieces ++ [.lit a.lit]
+
+mutual
+
+/-- A replacement field after its `{`: `(echo text of a self-documenting field, the field, rest,
+    offset of rest)`. -/
+def field (lookup : List Nat → Option Nat) (strict raw : Bool) :
+    Nat → Nat → List Nat → Nat → Option (List Nat × Piece × List Nat × Nat)
+  | 0, _, _, _ => none
+  | fuel + 1, lvl, cs, off =>
+    if lvl ≥ 2 then none                                   -- "expressions nested too deeply"
+    else match exprScan strict (cs.length + 1) [] cs with
+    | none => none
+    | some (text, r0) =>
+      if text.all isBlank then none                        -- "empty expression not allowed"
+      else if strict ∧ text.all isUniSpace then none
+      else
+        match eqPart r0 with
+        | (sd, r1) =>
+          if strict ∧ eqOutside lvl sd then none
+          else
+            match convPart r1 with
+            | none => none
+            | some (cv, r2, d) =>
+              match specPart (fun r o => parts lookup strict raw fuel (lvl + 1) false ⟨[], []⟩ r o) r2
+                  (off + ulen text + eqBytes sd + d) with
+              | none => none
+              | some (spec, r3, o3) =>
+                match closePart r3 with
+                | some r4 => some (echoOf text sd, .field text off (finalConv sd.isSome cv spec) spec, r4, o3 + 1)
+                | none => none
+
+/-- Literal text and replacement fields, alternating (`fstring_find_literal_and_expr` in a loop).
+    At nesting level 0 `{{` and `}}` are literal braces and a single `}` is an error; inside a
+    format spec (`lvl > 0`) a `}` ends the spec.  `seen` = a field has been seen in this list. -/
+def parts (lookup : List Nat → Option Nat) (strict raw : Bool) :
+    Nat → Nat → Bool → Acc → List Nat → Nat → Option (List Piece × List Nat × Nat)
+  | 0, _, _, _, _, _ => none
+  | _ + 1, _, _, acc, [], off => some (acc.flush, [], off)
+  | fuel + 1, lvl, seen, acc, c :: cs, off =>
+    if c = 92 ∧ ¬ raw then
+      if strict ∧ lvl ≥ 1 ∧ ¬ seen then none
+      else if cs.head? = some 123 ∨ cs.head? = some 125 then
+        parts lookup strict raw fuel lvl seen { acc with lit := acc.lit ++ [92] } cs (off + 1)
+      else match PV.C06.Spec.escape lookup false cs with
+        | none => none
+        | some (items, rest) =>
+          parts lookup strict raw fuel lvl seen { acc with lit := acc.lit ++ items.map PV.C06.Spec.fffd } rest
+            (off + 1 + (ulen cs - ulen rest))
+    else if c = 123 then
+      if lvl = 0 ∧ cs.head? = some 123 then
+        parts lookup strict raw fuel lvl seen { acc with lit := acc.lit ++ [123] } cs.tail (off + 2)
+      else match field lookup strict raw fuel lvl cs (off + 1) with
+        | none => none
+        | some (echo, f, rest, off') =>
+          parts lookup strict raw fuel lvl true ⟨(Acc.flush { acc with lit := acc.lit ++ echo }) ++ [f], []⟩ rest off'
+    else if c = 125 then
+      if lvl > 0 then some (acc.flush, c :: cs, off)
+      else if cs.head? = some 125 then
+        parts lookup strict raw fuel lvl seen { acc with lit := acc.lit ++ [125] } cs.tail (off + 2)
+      else none                                             -- "single '}' is not allowed"
+    else parts lookup strict raw fuel lvl seen { acc with lit := acc.lit ++ [c] } cs (off + usize c)
+
+end
+
+/-- The decomposition of an f-string body that starts at byte offset `off`. -/
+def split (lookup : List Nat → Option Nat) (strict raw : Bool) (body : List Nat) (off : Nat) :
+    Option (List Piece) :=
+  match parts lookup strict raw (4 * body.length + 16) 0 false ⟨[], []⟩ body off with
+  | some (ps, _, _) => some ps
+  | none => none
+
+/-- Merging of adjacent literal parts (and dropping of empty ones) across implicitly concatenated
+    literals: what the reference does with the pieces of all the tokens. -/
+def mergeGo : List Nat → List Piece → List Piece
+  | acc, [] => if acc.isEmpty then [] else [.lit acc]
+  | acc, .lit s :: ps => mergeGo (acc ++ s) ps
+  | acc, .field t o c sp :: ps => (if acc.isEmpty then [] else [.lit acc]) ++ .field t o c sp :: mergeGo [] ps
+
+def merge (ps : List Piece) : List Piece := mergeGo [] ps
 
 end PV.C07.Spec
